@@ -40,7 +40,7 @@ func main() {
 			}
 			return r
 		},
-		Rule: "the same histories and 128 configurations as C08 (length 4 quick / 5 thorough over the full alphabet, length 6 / 7 over the reduced alphabet {1 byte, MaxBytes+1 bytes, Reopen, +31ms}) on the real FileSink with the virtual clock; after every step, against a reference model driven by the same clock: a write rotated first iff the active file held >= MaxBytes since it was opened or was older than MaxDuration; BytesWritten / LastCreated agree; created and rotated names are the plain name or base-<timestamp>.ext with strictly increasing timestamps inside the call's clock window; the active file is plain-named under TimestampOnlyOnRotate; modes (0600 default, configured mode also on a pre-existing file, directory 0700); right after a rotation at most MaxFiles rotated files remain and they are the newest; nothing is removed outside a rotation, never the active file, never a bystander.",
+		Rule: "the same histories and 128 configurations as C08 (length 4 quick / 5 thorough over the full alphabet, length 6 / 7 over the reduced alphabet {1 byte, MaxBytes+1 bytes, Reopen, +31ms}) on the real FileSink with the virtual clock; after every step, against a reference model driven by the same clock: a write rotated first iff the active file held >= MaxBytes since it was opened or was older than MaxDuration; BytesWritten / LastCreated agree; created and rotated names are the plain name or base-<timestamp>.ext with strictly increasing timestamps inside the call's clock window; the active file is plain-named under TimestampOnlyOnRotate; modes (0600 default, configured mode (0666 under umask 022, i.e. bits the umask strips) on created and on pre-existing files, directory 0700); right after a rotation at most MaxFiles rotated files remain and they are the newest; nothing is removed outside a rotation, never the active file, never a bystander.",
 		Assumptions: []string{
 			"time conditions are certain: the clock only moves by 1ns ticks per read, +1ns or +31ms steps, MaxDuration is 30ms",
 		},
